@@ -8,6 +8,7 @@ import Skglm.Model.ProxNewtonDir
 import Skglm.Model.GroupProxNewton
 import Skglm.Model.FISTA
 import Skglm.Model.LBFGS
+import Skglm.Model.PDCD
 /-
   Driver operations for the block coordinate-descent moves (GroupBCD), the prox-Newton backtracking
   line search and the Cox sweeps.
@@ -151,6 +152,20 @@ def solverOps (op : String) : Option (P String) :=
       let P : LbfgsProb Float n p := { X := X, y := y, sw := sw, df := d, alpha := alpha }
       pure (fmt (P.lbfgsObjective w) ++ " " ++ fmt (P.lbfgsStop w) ++ " " ++ fmt (P.lbfgsObjectiveSparse M w) ++ " " ++
             fmt (P.lbfgsStopSparse M w) ++ " " ++ fmtVec (P.lbfgsJac w) ++ " " ++ fmtVec (P.lbfgsJacSparse M w))
+  | "pdcd_sub" => some do   -- `PDCD_WS._solve_subproblem`: w, Xw, z, z_bar after the epochs; stop criterion; objective
+      let dk ← tok
+      let df : PDDatafit Float ← (match dk with
+        | "sqrt" => pure PDDatafit.sqrtQuad
+        | "pinball" => do let q ← pFloat; pure (PDDatafit.pinball q)
+        | _ => throw s!"pd-datafit:{dk}")
+      let n ← pNat; let p ← pNat; let X ← pMatNP n p; let y ← pVecN n
+      let pen ← pPen; let wts ← pVecN p; let tau ← pVecN p; let sigma ← pFloat
+      let w ← pVecN p; let Xw ← pVecN n; let z ← pVecN n; let zb ← pVecN n
+      let ws ← pWs p; let maxEp ← pNat; let tolIn ← pFloat
+      let P : PDProb Float n p := { X := X, y := y, df := df, pen := pen, wts := wts, tau := tau, sigma := sigma }
+      let s := P.solveSubproblem ws maxEp tolIn { w := w, Xw := Xw, z := z, zbar := zb }
+      pure (fmtVec s.w ++ " " ++ fmtVec s.Xw ++ " " ++ fmtVec s.z ++ " " ++ fmtVec s.zbar ++ " " ++ fmt (P.stopCrit s) ++ " " ++
+            fmtE (P.objective s))
   | "pn_grad" => some do
       let ⟨n, p, P⟩ ← pProb; let s ← pState n p
       pure (fmtVec (P.pnGrad s.Xw))
